@@ -69,6 +69,8 @@ LEAVES = [
     L("s.hostname", [["sys", []], ["hostname", []]], "string", S, fam=["valid"]),
     L("s.desc", [["sys", []], ["desc", []]], "string", ["s:none", "s:d"], default="s:none", fam=["dflt"]),
     L("s.primary", [["sys", []], ["primary", []]], "leafref", ["s:$k1", "s:$k2"], fam=["valid"]),
+    # require-instance false: a dangling reference is a warning, never an error
+    L("s.secondary", [["sys", []], ["secondary", []]], "leafref", ["s:$k1", "s:nosuch"], fam=["cross"]),
     L("s.guard", [["sys", []], ["guard", []]], "boolean", ["b:true", "b:false"], fam=["valid", "cross"]),
     L("s.tags", [["sys", []], ["tags", []]], "leaf-list:string", ["ll:s:t1", "ll:s:t1|s:t2"], kind="leaflist", fam=["valid", "pres"], bad=[["ll:s:t1|s:t2|s:t3", "maxelements"]]),
     L("s.feat", [["sys", []], ["feat", []]], "presence", ["e:"], kind="presence", fam=["dflt"]),
@@ -113,6 +115,7 @@ LEAVES = [
     # top level choice with prefix related non member
     L("c.x", [["ch", []], ["alpha", []], ["x", []]], "string", S, choice="ch.kind", case="a", fam=["choice"]),
     L("c.y", [["ch", []], ["beta", []], ["y", []]], "string", S, choice="ch.kind", case="b", fam=["choice"]),
+    L("c.y2", [["ch", []], ["beta", []], ["y2", []]], "string", S, choice="ch.kind", case="b", fam=["choice2"]),
     L("c.be", [["ch", []], ["beta-extra", []]], "string", S, choice="ch.kind", case="b", fam=["choice"]),
     L("c.z", [["ch", []], ["alphax", []], ["z", []]], "string", S, fam=["choice"]),
 ]
